@@ -168,4 +168,7 @@ def exπ' : Nat → Nat
   | 0 => 1
   | _ => 2
 
+/-- `exS` (all directions open) with one invalid cell -/
+def exSO : Fld := { exS with valid := ⟨[4, 3, 5], fun i => decide (i ≠ [3, 2, 4])⟩ }
+
 end DFV.C05
